@@ -9,7 +9,7 @@ CONSTANTS
   MaxOps = 3
   MaxMinted = 3
   EmitAt = 0
-  ProbeDepth = 1
+  ProbeDepth = 0
 INIT GInit
 NEXT GNextC
 VIEW GView
